@@ -482,6 +482,38 @@ class FunctionCheck:
                       clause="the call leaves the arrays held by the object unchanged (a repeated call sees the same state)",
                       replay_out=self.frame_replay(True) if selfw else None)
 
+    def elementwise_obligation(self, cp, tag):
+        """every array output's generic element is a term in the same-index inputs only: no aggregate
+        over the event axis (sum / max / ...) may flow into a per-event output"""
+        if cp.kind != "return" or self.sc.axis is None:
+            return
+        ax = self.sc.axis
+        bad = []
+        for name, r in zip(self.outputs, flat(cp.result)):
+            if isinstance(r, A) and ax in r.axes:
+                for t in prover.sigma_terms([r.e]):
+                    if t.args[0] == ax.tag:
+                        bad.append("%s contains an aggregate over the events: %s" % (name, str(t)[:80]))
+        self.ck.direct("%s/elementwise%s" % (self.qn, tag), not bad, "frame", "symbolic execution (generic-element typing)", note="; ".join(bad),
+                       clause="each per-event output depends on the same event's inputs only (=> permutation equivariant, split/concatenation invariant)",
+                       replay_out=None if not bad else self.permutation_replay())
+
+    def permutation_replay(self):
+        rng = np.random.default_rng(self.ck.seed)
+        v = self.valid_native(rng, 6)
+        try:
+            with np.errstate(all="ignore"):
+                full = flat(self.run_native({k: (x.copy() if isinstance(x, np.ndarray) else x) for k, x in v.items()}))
+                half = {k: (x[:3].copy() if isinstance(x, np.ndarray) and x.shape[:1] == (6,) else x) for k, x in v.items()}
+                part = flat(self.run_native(half))
+        except Exception as ex:
+            return {"violated": None, "note": "native run raised %r" % ex}
+        for name, a, b in zip(self.outputs, full, part):
+            if isinstance(a, np.ndarray) and a.shape[:1] == (6,) and isinstance(b, np.ndarray) and b.shape[:1] == (3,):
+                if not close(a[:3], b, 1e-12):
+                    return {"violated": True, "input": jsonable_vals(v), "observed": {"output": name, "first half of batch": a[:3].tolist(), "half batch alone": b.tolist()}, "function": self.qn}
+        return {"violated": False}
+
     def shape_obligations(self, cp, tag):
         ck, qn = self.ck, self.qn
         for sh in cp.shape_failures:
@@ -509,6 +541,7 @@ class FunctionCheck:
                 continue
             self.shape_obligations(cp, tag)
             self.frame_obligations(cp, tag)
+            self.elementwise_obligation(cp, tag)
             if cp.kind == "raise" and type(cp.exc).__name__ not in allowed_raises:
                 o = ck.ob("%s/post.exit%s" % (qn, tag), "post")
                 o.clause = "the call returns normally on every input satisfying the precondition (found: raises %s: %s)" % (type(cp.exc).__name__, cp.exc)
@@ -543,6 +576,7 @@ class FunctionCheck:
                 continue
             self.shape_obligations(cp, tag)
             self.frame_obligations(cp, tag)
+            self.elementwise_obligation(cp, tag)
             for si, sp_ in enumerate(self.spec_paths):
                 hy = self.hyps + cp.pc + cp.facts + sp_.pc + sp_.facts
                 if len(self.code_paths) * len(self.spec_paths) > 1:
